@@ -4,6 +4,7 @@
 //!   vmc item   <Cxx> <tier> <idx>               child: one work item inside its own mount namespace + tmpfs jail
 //!   vmc replay <Cxx> <file>                     re-run exactly one recorded execution
 
+mod c15;
 mod c16;
 mod capimc;
 mod ev;
@@ -33,6 +34,7 @@ fn n_items(prop: &str, tier: &str) -> usize {
         "C09" => handlemc::n_items(tier),
         "C17" => capimc::n_items(tier),
         "C16" => c16::n_items(tier),
+        "C15" => c15::n_items(tier),
         "C02" | "C03" | "C05" | "C10" | "C11" => sysprops::n_items(prop, tier),
         _ => 0,
     }
@@ -47,6 +49,7 @@ fn run_item(prop: &str, tier: &str, idx: usize, only: Option<&Value>) -> sys::MR
         "C09" => handlemc::run_item(tier, idx, only),
         "C17" => capimc::run_item(tier, idx, only),
         "C16" => c16::run_item(tier, idx, only),
+        "C15" => c15::run_item(tier, idx, only),
         "C02" | "C03" | "C05" | "C10" | "C11" => sysprops::run_item(prop, tier, idx, only),
         _ => sys::mach(format!("no engine for {}", prop)),
     }
@@ -61,6 +64,7 @@ fn report(prop: &str, tier: &str) -> Report {
         "C09" => handlemc::report(tier),
         "C17" => capimc::report(tier),
         "C16" => c16::report(tier),
+        "C15" => c15::report(tier),
         "C02" | "C03" | "C05" | "C10" | "C11" => sysprops::report(prop, tier),
         _ => unreachable!(),
     }
@@ -86,6 +90,21 @@ fn main() {
             let n = n_items(&prop, &tier);
             if n == 0 { eprintln!("no check registered for {}", prop); std::process::exit(2); }
             let t0 = sys::now();
+            if prop == "C15" {
+                // the sysctl is global: two phases, the original value is restored on every exit path of this process
+                let orig = c15::read_sysctl().unwrap_or_else(|| { eprintln!("MACHINERY ERROR: cannot read fs.protected_symlinks"); std::process::exit(2) });
+                let lock = std::fs::File::create("/verif/.build/c15.lock").expect("lock file");
+                unsafe { libc::flock(std::os::unix::io::AsRawFd::as_raw_fd(&lock), libc::LOCK_EX) };
+                let mut total = ItemResult::default();
+                for (val, range) in [(1u32, 0..4usize), (0u32, 4..8usize)] {
+                    if let Err(e) = c15::write_sysctl(val) { let _ = c15::write_sysctl(orig); eprintln!("MACHINERY ERROR: {}", e); std::process::exit(2); }
+                    let r = run_pool_range(&ctx, range, budget(&prop, &tier));
+                    total.merge(r);
+                }
+                let _ = c15::write_sysctl(orig);
+                let code = finish(&ctx, total, report(&prop, &tier), t0.elapsed().as_secs_f64());
+                std::process::exit(code);
+            }
             let r = run_pool(&ctx, n, budget(&prop, &tier));
             let code = finish(&ctx, r, report(&prop, &tier), t0.elapsed().as_secs_f64());
             std::process::exit(code);
@@ -109,7 +128,10 @@ fn main() {
             let tier = doc["tier"].as_str().unwrap_or("quick").to_string();
             let case = doc["case"].clone();
             let idx = case["item"].as_u64().unwrap_or(0) as usize;
-            match run_item(&prop, &tier, idx, Some(&case)) {
+            let c15_orig = if prop == "C15" { let o = c15::read_sysctl(); let _ = c15::write_sysctl(if idx < 4 { 1 } else { 0 }); o } else { None };
+            let rr = run_item(&prop, &tier, idx, Some(&case));
+            if let Some(o) = c15_orig { let _ = c15::write_sysctl(o); }
+            match rr {
                 Err(e) => { eprintln!("MACHINERY ERROR: {}", e); std::process::exit(2); }
                 Ok(r) => {
                     println!("replayed {} evaluations; outcomes {:?}", r.evaluations, r.outcomes);
